@@ -23,8 +23,14 @@ def run_coexec(prop, tier, seed, *, module, theorems, gen_cases, nontrivial, rul
     t0 = time.time()
     rng = random.Random(seed)
     obligations = C.proof_obligations(prop, module, theorems)
+    pending_failure = None
     if extra_obligations:
-        obligations += extra_obligations()
+        try:
+            obligations += extra_obligations()
+        except C.CheckFailure as f:
+            # a regenerated table no longer checks: first look for a concrete input on which the implementation
+            # departs from the model (the co-execution below); only if there is none report the table itself
+            pending_failure = f
     cases = load_corpus(prop) + gen_cases(rng, tier)
     total = 0
     known_hits = {}
@@ -51,6 +57,8 @@ def run_coexec(prop, tier, seed, *, module, theorems, gen_cases, nontrivial, rul
             write_ev(prop, tier, seed, obligations, cases, nontrivial, rule, total, t0, 1, engines, stats, corr_ok=False, extra_cov=extra_cov)
             C.violation(prop, path)
             return 1
+    if pending_failure is not None:
+        raise pending_failure
     for f in C.known_findings().get("known", []):
         if f["property"] == prop and f["id"] in known_hits:
             print(f"KNOWN-FINDING: property={prop} {f['what']} ({known_hits[f['id']]} cases of this run)")
